@@ -4,6 +4,7 @@
 From Coq Require Import List NArith ZArith Bool.
 From Cedar Require Import Lib.Bytes gen.Consts Model.Msg Model.Privacy Model.AdWire Proofs.C09 Proofs.C14Writer Proofs.C09Layout.
 From Cedar Require Import Proofs.C14Roundtrip Proofs.C08Bridge Proofs.C09Round.
+From Cedar Require Import Model.PrivacySeq Proofs.C09Seq.
 Import ListNotations.
 Local Open Scope N_scope.
 
@@ -131,6 +132,63 @@ Theorem C09_opt_in_sends_all : forall (c : config) (attrs : list attr) (a : attr
 Proof. exact opt_in_sends_all. Qed.
 Print Assumptions C09_opt_in_sends_all.
 
+(* The whitelist path, for EVERY ad, whitelist, option set (NoExpandWhitelist or not), EncryptedAttrs
+   and peer, and for all expressions WHATEVER THEY REFER TO (the attribute's expression text is the
+   unconstrained second component): every serialised attribute is an attribute of the ad, is named
+   by the whitelist when one is given, and passes the privacy filter - so without the opt-in it is
+   not private, and a reserved-prefix name never reaches an old peer.  A projection is never widened
+   by what a projected expression mentions. *)
+Theorem C09_whitelist_never_adds_private : forall (c : config) (attrs : list attr) (a : attr),
+  In a (attrs_to_send c attrs) ->
+  In a attrs /\
+  (c_whitelist c <> [] -> in_list (fst a) (c_whitelist c) = true) /\
+  dropped (exclude_private c) (exclude_private_v2 c) (c_enc_attrs c) (fst a) = false /\
+  (include_private c = false -> is_private_any (fst a) = false /\ in_list (fst a) (c_enc_attrs c) = false) /\
+  (forall v, c_peer c = Some v -> built_since v 9 9 0 = false -> is_private_v2 (fst a) = false).
+Proof. exact whitelist_never_adds_private. Qed.
+Print Assumptions C09_whitelist_never_adds_private.
+
+(* ... and the set of names serialised is a function of the ad's attribute NAMES only: two ads with
+   the same names and arbitrary, different expressions are projected to the same names. *)
+Theorem C09_projection_ignores_expressions : forall (c : config) (l1 l2 : list attr),
+  map fst l1 = map fst l2 -> map fst (attrs_to_send c l1) = map fst (attrs_to_send c l2).
+Proof. exact projection_ignores_expressions. Qed.
+Print Assumptions C09_projection_ignores_expressions.
+
+(* Histories through ONE Message: arbitrary interleavings of SetSymmetricKey, SetCryptoMode(on/off),
+   allocation of a fresh Message, and PutClassAdWithOptions + FinishMessage, from any sender state
+   with an empty buffer.  The frames written are, ad by ad, exactly the frames a brand-new Message on
+   a brand-new stream IN THE MODE IN FORCE WHEN THAT AD IS SERIALISED would write (fresh_frames):
+   the Message carries no crypto decision from its construction or from earlier ads; and the ad
+   writes leave the stream's mode as the state changes set it. *)
+Theorem C09_decision_at_serialisation_time : forall (ops : list sop) (st : sstate),
+  s_buf st = [] ->
+  s_out (run_seq st ops) = s_out st ++ fresh_frames (s_key st, s_enc st) ops /\
+  (s_key (run_seq st ops), s_enc (run_seq st ops)) = mode_after (s_key st, s_enc st) ops.
+Proof. exact decision_at_serialisation_time. Qed.
+Print Assumptions C09_decision_at_serialisation_time.
+
+(* Hence, in any history: an ad written at a moment when the stream holds a key and is not
+   encrypting (whenever the Message was created, whatever was sent through it before and after)
+   shows nothing of its secrets' values to an observer of the connection ... *)
+Theorem C09_seq_secret_sealed : forall (pre post : list sop) (c : config) (a1 a2 : ad) (st : sstate),
+  s_buf st = [] ->
+  mode_after (s_key st, s_enc st) pre = (true, false) ->
+  same_but_secrets c (ad_attrs a1) (ad_attrs a2) ->
+  ad_mytype a1 = ad_mytype a2 -> ad_targettype a1 = ad_targettype a2 ->
+  view (s_out (run_seq st (pre ++ OPutAd c a1 :: post))) = view (s_out (run_seq st (pre ++ OPutAd c a2 :: post))).
+Proof. exact seq_secret_sealed. Qed.
+Print Assumptions C09_seq_secret_sealed.
+
+(* ... and without the opt-in the whole history is identical for ads differing only in private attributes. *)
+Theorem C09_seq_noninterference : forall (pre post : list sop) (c : config) (a1 a2 : ad) (st : sstate),
+  include_private c = false ->
+  filter public_attr (ad_attrs a1) = filter public_attr (ad_attrs a2) ->
+  ad_mytype a1 = ad_mytype a2 -> ad_targettype a1 = ad_targettype a2 ->
+  run_seq st (pre ++ OPutAd c a1 :: post) = run_seq st (pre ++ OPutAd c a2 :: post).
+Proof. exact seq_noninterference. Qed.
+Print Assumptions C09_seq_noninterference.
+
 (* non-vacuity: a keyed, non-encrypting stream and an ad with a claim id *)
 Import Coq.Strings.String.StringSyntax.
 Local Open Scope string_scope.
@@ -148,6 +206,33 @@ Proof.
   - constructor; [split; [reflexivity|vm_compute; reflexivity]|].
     constructor; [split; [reflexivity|vm_compute; reflexivity]|]. constructor.
   - split; [vm_compute; reflexivity|]. vm_compute. discriminate.
+Qed.
+
+
+(* non-vacuity of the whitelist theorem: the projection {Name, ClaimRef} of an ad in which
+   ClaimRef = ClaimId is [Name; ClaimRef] - ClaimId is not drawn in by the reference, with or
+   without NoExpandWhitelist (bit 4), with or without the opt-in *)
+Example C09_example_whitelist_reference :
+  let attrs := [(s2b "Name", s2b """slot1"""); (s2b "ClaimId", s2b """secret"""); (s2b "ClaimRef", s2b "ClaimId")] in
+  let c o := {| c_opts := o; c_whitelist := [s2b "Name"; s2b "ClaimRef"]; c_enc_attrs := []; c_peer := None |} in
+  map fst (attrs_to_send (c 0) attrs) = [s2b "Name"; s2b "ClaimRef"] /\
+  map fst (attrs_to_send (c 16) attrs) = [s2b "Name"; s2b "ClaimRef"] /\
+  map fst (attrs_to_send (c 32) attrs) = [s2b "Name"; s2b "ClaimRef"] /\
+  map fst (attrs_to_send (c 34) attrs) = [s2b "Name"; s2b "ClaimRef"].
+Proof. cbv zeta. repeat split; vm_compute; reflexivity. Qed.
+
+(* non-vacuity of the history theorems: the Message exists before the key is installed; the key is
+   installed, encryption switched off, and only then the ad with a claim id is written *)
+Example C09_example_history :
+  let c := {| c_opts := 32; c_whitelist := []; c_enc_attrs := []; c_peer := None |} in
+  let a v := {| ad_attrs := [(s2b "Name", s2b """slot1"""); (s2b "ClaimId", v)]; ad_mytype := s2b "Machine"; ad_targettype := [] |} in
+  let st := sstate_init false false in
+  mode_after (s_key st, s_enc st) [ONewMsg; OSetKey; OCryptoOff] = (true, false) /\
+  s_out (run_seq st ([ONewMsg; OSetKey; OCryptoOff] ++ [OPutAd c (a (s2b """secretA"""))])) <>
+  s_out (run_seq st ([ONewMsg; OSetKey; OCryptoOff] ++ [OPutAd c (a (s2b """secretB"""))])) /\
+  existsb (fun f : tframe => fst f) (s_out (run_seq st ([ONewMsg; OSetKey; OCryptoOff] ++ [OPutAd c (a (s2b """secretA"""))]))) = true.
+Proof.
+  cbv zeta. split; [reflexivity|]. split; [vm_compute; discriminate|vm_compute; reflexivity].
 Qed.
 
 
